@@ -24,9 +24,11 @@ Section Grows.
   Variable nested : tdata -> cfg -> res pyres.
   Variable rm : rmachine.
   Hypothesis nested_grows : forall td c, Rres grows c (nested td c).
+  (* and whose callbacks leave the low-level API alone: none assigns the state itself *)
+  Hypothesis NW : no_writes beh.
 
-  Let cg := call_group_R beh nested rm grows grows_refl grows_trans grows_calls grows_log grows_amb nested_grows.
-  Let ag := all_group_R beh nested rm grows grows_refl grows_trans grows_calls grows_log grows_amb grows_ambc nested_grows.
+  Let cg := call_group_R beh nested rm grows grows_refl grows_trans grows_calls grows_log grows_amb nested_grows (or_intror NW).
+  Let ag := all_group_R beh nested rm grows grows_refl grows_trans grows_calls grows_log grows_amb grows_ambc nested_grows (or_intror NW).
 
   (* everything up to and including `on` leaves the stored state alone, returning or raising *)
   Lemma activate_pre_grows t x c : Rres grows c (activate_pre beh nested rm t x c).
@@ -442,6 +444,21 @@ Proof.
 Qed.
 
 (* a rejected candidate ran its validators and its conditions (one of which failed) and nothing else *)
+(* the assignment of the state after `on` is unconditional: whatever a callback of the first half stored
+   through the low-level API ([AWrite]), the second half starts from the target - for internal
+   transitions too *)
+Lemma activate_post_overrides beh nested rm t x c f :
+  activate_post beh nested rm t x (set_field c f) = activate_post beh nested rm t x c.
+Proof. reflexivity. Qed.
+
+Lemma activate_post_starts_from_target beh nested rm t x c :
+  activate_post beh nested rm t x c =
+    (let c0 := set_field c (Some (a_tgt t)) in
+     let x0 := with_state x (Some (a_tgt t)) in
+     do (c1, _n) <- (if a_internal t then Ok c0 [] else call_group beh nested rm GEnter x0 (a_enter t) c0);
+     do (c2, _a) <- call_group beh nested rm GAfter x0 (a_after t) c1; Ok c2 tt).
+Proof. reflexivity. Qed.
+
 Lemma activate_rejected beh nested rm t td c c' v :
   activate beh nested rm t td c = Ok c' (false, v) ->
   exists c1 v1,
